@@ -173,6 +173,36 @@ class HoldDownEnds(Damp):
         return bad
 
 
+class FreshInbound(Damp):
+    """an inbound connection was admitted a moment before the protocol error (its FSM has not made its first transition
+    yet: held at schedule point run.start): it is dropped like any other connection of the peer"""
+
+    def __init__(self, sid):
+        Damp.__init__(self, sid, "out", "openSent", ("send-bad", None), True)
+        self.tag = "damp.fresh-inbound-before-first-transition"
+
+    def scenario(self):
+        bad = S.frame(S.OPEN, S.open_body(64999)).hex()       # wrong AS: corebgp answers (2,2)
+        st = [["accept", "c1", 3000], ["recv", "c1", 1, 2000], ["arm", "run.start"], ["dial", "c2"],
+              ["wait_event", "point.hold", 1500, "run.start"], ["send", "c1", bad, 0], ["recv_eof", "c1", 1000], ["sleep", 40],
+              ["release", "run.start"], ["recv_eof", "c2", 600], ["sleep", 100]]
+        return {"id": self.sid, "local_as": 65001, "remote_as": 65000, "local_id": 0x0A000001, "hold": 90,
+                "passive": False, "idle_hold_ms": 100, "connect_retry_ms": 400, "caps": [], "on_open": None,
+                "handler": [], "est_writes": [], "steps": st}
+
+    def check(self, r):
+        bad = []
+        damps = [e for e in r["events"] if e["kind"] == "m.damp"]
+        if not damps:
+            return ["NOTIFICATION (2,2) sent but no hold-down started"]
+        c2 = [c for c in r["conns"] if c["name"] == "c2"]
+        if c2 and any(m["t"] == 1 for m in c2[0]["msgs"]):
+            bad.append("inbound connection served (OPEN sent) while the peer must be held down")
+        if c2 and not c2[0]["eof"]:
+            bad.append("the inbound connection admitted just before the protocol error was not dropped")
+        return bad
+
+
 class Dropped(Damp):
     """recorded finding D14: the outbound FSM has sent NOTIFICATION (2,1) and is about to report the error when the
     manager stops it because the inbound FSM reaches Established: the error report is lost, no hold-down starts."""
@@ -215,6 +245,8 @@ def sys_part(tier, rng, rep, replay):
     cove = sysrun.run_convs(PID, ends, rep, extra_check=lambda c, e, o, r: c.check(r), par=1)
     cov["holddown_end_sessions"] = cove["evaluations"]
     cov["evaluations"] = cov.get("evaluations", 0) + cove["evaluations"]
+    covf = sysrun.run_convs(PID, [FreshInbound(940)], rep, extra_check=lambda c, e, o, r: c.check(r), par=1)
+    cov["evaluations"] = cov.get("evaluations", 0) + covf["evaluations"]
     covk = sysrun.run_convs(PID, [Dropped(950)], rep, extra_check=lambda c, e, o, r: c.check(r), par=1, kinds=("monitor",))
     cov["known_finding_reproductions"] = covk["evaluations"]
     cov["rule"] = ("sessions ended at OpenSent/OpenConfirm/Established on either direction by: a received NOTIFICATION of each code "
